@@ -20,6 +20,22 @@ import (
 // ErrInjected is returned by operations the explorer decided to fail.
 var ErrInjected = errors.New("verif: injected s3 failure")
 
+// ErrInjectedCancel is logged (and wrapped in the returned error) for an upload the
+// explorer made fail because the request context of the caller ended (client went away /
+// request deadline): the fake cancels that request context before it returns.
+var ErrInjectedCancel = errors.New("verif: injected s3 failure (request context cancelled)")
+
+// Canceller is stored by a harness in a request context under CancelKey{} so that the
+// fake can end that request when Client.CancelOnFail is set. Contexts derived from the
+// request context (errgroup) inherit the value.
+type Canceller struct {
+	Ctx    context.Context // the request context itself
+	Cancel context.CancelFunc
+}
+
+// CancelKey is the context key of the *Canceller.
+type CancelKey struct{}
+
 // ErrCrashed is returned once the owning broker incarnation has crashed.
 var ErrCrashed = errors.New("verif: broker crashed")
 
@@ -109,6 +125,10 @@ type Client struct {
 	FailOn   map[string]bool // op names for which a failure decision is offered
 	CrashOn  map[string]bool // op names before which a crash decision is offered
 	NoPoints bool            // do not take scheduling points
+	// CancelOnFail (default off): an injected upload failure whose ctx carries a live
+	// *Canceller is followed by one more decision (deviation cost 0): plain failure, or
+	// failure because the request context ended (the fake cancels it, then returns its error).
+	CancelOnFail bool
 	crashed  bool
 	cmu      sync.Mutex
 	OnCrash  func()
@@ -145,7 +165,9 @@ func (c *Client) Crash() {
 	}
 }
 
-func (c *Client) pre(op, key string) error {
+func (c *Client) pre(op, key string) error { return c.preCtx(nil, op, key) }
+
+func (c *Client) preCtx(ctx context.Context, op, key string) error {
 	if !c.NoPoints {
 		sched.Env("s3." + op)
 	}
@@ -157,6 +179,14 @@ func (c *Client) pre(op, key string) error {
 		return ErrCrashed
 	}
 	if c.FailOn[op] && sched.Choose(2, "fail "+op) == 1 {
+		if c.CancelOnFail && ctx != nil {
+			if cc, ok := ctx.Value(CancelKey{}).(*Canceller); ok && cc != nil && cc.Ctx.Err() == nil &&
+				sched.ChooseCost(2, 0, "request ctx cancelled at failing "+op) == 1 {
+				cc.Cancel()
+				c.log(op, key, ErrInjectedCancel, 0)
+				return fmt.Errorf("%w: %w", ErrInjectedCancel, cc.Ctx.Err())
+			}
+		}
 		c.log(op, key, ErrInjected, 0)
 		return ErrInjected
 	}
@@ -175,7 +205,7 @@ func (c *Client) log(op, key string, err error, size int) {
 }
 
 func (c *Client) UploadSegment(ctx context.Context, key string, body []byte) error {
-	if err := c.pre("UploadSegment", key); err != nil {
+	if err := c.preCtx(ctx, "UploadSegment", key); err != nil {
 		return err
 	}
 	if err := ctx.Err(); err != nil {
@@ -187,7 +217,7 @@ func (c *Client) UploadSegment(ctx context.Context, key string, body []byte) err
 }
 
 func (c *Client) UploadIndex(ctx context.Context, key string, body []byte) error {
-	if err := c.pre("UploadIndex", key); err != nil {
+	if err := c.preCtx(ctx, "UploadIndex", key); err != nil {
 		return err
 	}
 	if err := ctx.Err(); err != nil {
